@@ -17,6 +17,9 @@ def plan_common(tier, seed, n_random, n_enum, mols_per_case=6, gens_per_mol=4):
     cases = []
     for i in range(n_random):
         cases.append({"kind": "random", "seed": seed * 1000003 + i, "arch": ARCHS[i % len(ARCHS)], "mols": mols_per_case, "gens": gens_per_mol})
+    for i in range(4 if tier == "quick" else 24):
+        # hostile class (known finding): an explicit hydrogen written before a descriptor atom
+        cases.append({"kind": "random", "seed": seed * 1000037 + i, "arch": "hostile_h", "mols": 4, "gens": 2})
     for i in range(n_enum):
         cases.append({"kind": "enum", "seed": seed * 1000033 + i, "arch": ARCHS[i % len(ARCHS)], "limit": 1200 if tier == "quick" else 6000})
     return cases
@@ -47,6 +50,19 @@ def classify_exc(exc):
 
 def handle_observation(owner, subj, obs, cnt, viol, nt, label):
     """judge one observed generation"""
+    if getattr(subj, "hostile_h", False):
+        mine = []
+        _handle_observation(owner, subj, obs, cnt, mine, nt, label)
+        cnt["hostile_h_generations"] += 1
+        for v in mine:
+            # mechanism: the written-order index of the descriptor's atom counts an explicit hydrogen that the fragment molecule does not contain
+            v = dict(v, cls=f"{owner}.explicit-hydrogen-before-descriptor-atom", original_cls=v["cls"])
+            viol.append(v)
+        return None
+    return _handle_observation(owner, subj, obs, cnt, viol, nt, label)
+
+
+def _handle_observation(owner, subj, obs, cnt, viol, nt, label):
     own = lambda v: v["cls"].startswith(owner + ".") or v["cls"].startswith("native")
     for v in obs["violations"]:
         v = dict(v)
